@@ -3666,7 +3666,13 @@ impl XmlUnexpandedEntityReference {
     }
 
     pub fn value(&self) -> error::Result<String> {
-        attr_value_from_name(self.name(), self.context())
+        // Attribute-value normalization (XML 1.0 3.3.3) applies to a reference inside an
+        // attribute value only; in element content the replacement text is included as is.
+        let in_content = self
+            .parent_item()
+            .map(|v| v.as_element().is_some())
+            .unwrap_or(false);
+        entity_value_from_name(self.name(), self.context(), !in_content)
     }
 }
 
@@ -4186,23 +4192,44 @@ fn attribute_name(name: &parser::AttributeName) -> (String, Option<String>) {
 }
 
 fn attr_value_from_name(name: &str, context: &Context) -> error::Result<String> {
+    entity_value_from_name(name, context, true)
+}
+
+/// Replacement text of the entity `name` with the references it contains included.
+///
+/// With `in_attribute` the inclusion follows XML 1.0 3.3.3: every white space character of a
+/// replacement text becomes a space. That covers a character written as a character reference
+/// in the entity value, because it is a literal character of the replacement text (4.5).
+fn entity_value_from_name(
+    name: &str,
+    context: &Context,
+    in_attribute: bool,
+) -> error::Result<String> {
     let entity = context.entity(name)?;
     let mut parsed = String::new();
     for value in entity.borrow().values().unwrap_or_default() {
         match &value {
-            XmlEntityValue::Character(v, r) => match r {
-                10 => parsed.push(char_from_char10(v)?),
-                16 => parsed.push(char_from_char16(v)?),
-                _ => unreachable!(),
-            },
+            XmlEntityValue::Character(v, r) => {
+                let c = match r {
+                    10 => char_from_char10(v)?,
+                    16 => char_from_char16(v)?,
+                    _ => unreachable!(),
+                };
+                if in_attribute {
+                    parsed.push_str(normalize_ws(c.to_string().as_str()).as_str());
+                } else {
+                    parsed.push(c);
+                }
+            }
             XmlEntityValue::Entity(v) => {
-                let v = attr_value_from_name(v, context)?;
+                let v = entity_value_from_name(v, context, in_attribute)?;
                 parsed.push_str(v.as_str());
             }
             XmlEntityValue::Parameter(_) => {
                 unimplemented!("Not support parameter entity reference.")
             }
-            XmlEntityValue::Text(v) => parsed.push_str(normalize_ws(v).as_str()),
+            XmlEntityValue::Text(v) if in_attribute => parsed.push_str(normalize_ws(v).as_str()),
+            XmlEntityValue::Text(v) => parsed.push_str(v),
         }
     }
     Ok(parsed)
